@@ -145,6 +145,36 @@ def main():
                         viol.append(f'{cls.__name__}: constructor options with falsy values changed across restart(): userid {uid!r} -> {w.userid!r}, '
                                     f'set_names False -> {w._set_names!r}, user_state {st!r} -> {w.user_state!r}')
                     w.terminate(timeout=2)
+        # C16 across a restart: the next incarnation starts from the state the old child assigned last - also when restart() had to TERMINATE a busy child
+        for cls in (PersistentThreadWorker, PersistentProcessWorker):
+            for how in ('idle (waited for)', 'busy (terminated)'):
+                w = cls(T.count_then_maybe_sleep, name='state', init_state={'n': 0})
+                workers.append(w)
+                try:
+                    w.enqueue(0)
+                    w.enqueue(0)
+                    w.next_result(timeout=5)
+                    w.next_result(timeout=5)
+                    if how.startswith('busy'):
+                        w.enqueue(5)          # third call: state becomes 3, then the child is busy for 5 s
+                        time.sleep(0.5)
+                        w.restart(timeout=0.3)
+                        expect = 3
+                    else:
+                        w.restart(timeout=3)
+                        expect = 2
+                    got = w.user_state
+                    obs[f'{cls.__name__}/state across restart/{how}'] = got
+                    if got != {'n': expect}:
+                        viol.append(f'{cls.__name__}, old incarnation {how}: after restart() the new incarnation starts from user_state {got!r}, the old child had '
+                                    f'last assigned {{\'n\': {expect}}}')
+                except Exception as e:     # noqa
+                    viol.append(f'{cls.__name__}/state across restart/{how}: {type(e).__name__}: {e}')
+                finally:
+                    try:
+                        w.terminate(timeout=2)
+                    except Exception:     # noqa
+                        pass
         for kind in sc.get('kinds', ['thread', 'process', 'remote']):
             for state in ('fresh', 'unread', 'queued', 'closed', 'died', 'killed'):
                 if state == 'killed' and kind == 'thread':
